@@ -251,7 +251,10 @@ def run_check(check_id, tier, seed):
     if not os.path.abspath(dataiter.__file__).startswith("/repo/"):
         raise InfraError(f"dataiter imported from {dataiter.__file__}, not /repo")
     if hasattr(mod, "prepare"):
-        mod.prepare(tier)
+        try:
+            mod.prepare(tier)
+        except Exception as e:
+            raise InfraError(f"prepare() failed: {type(e).__name__}: {e}")
     shards = list(mod.shards(tier))
     order = list(range(len(shards)))
     # The seed only permutes scheduling order among shards; what is explored is fixed.
